@@ -2,7 +2,7 @@
    ... `return M, init, output`) as an executable state machine.  The numerics are abstract oracles:
    one sweep over `for n in dimorder:`, the two fit formulas, the comparison |fitold - fit| < stoptol,
    arrange and fixsigns.  Everything about control flow, the reported quantities and printing is
-   transliterated statement by statement. *)
+   transliterated statement by statement (from the REPAIRED source: `if maxiters == 0:` block = cpals_entry). *)
 From Coq Require Import List Arith Bool Lia.
 Import ListNotations.
 
